@@ -990,6 +990,7 @@ def run(ctx):
 
 
 SELFTESTS = [
+    (rule_empty_files_do_not_overlap, ["c01_ovl_bad.cc"], ["c01_ovl_good.cc"], "start_sector"),
     (lambda p, fixture=True: c02.rule_entry_fields(p, fixture=True, only=["start_sector", "file_length"], rule_id="R-C01-1"),
      ["c02_bad.cc"], ["c02_good.cc"], "file_length"),
     (rule_walk_accounting, ["c01_bad.cc"], ["c01_good.cc"], "amount"),
